@@ -163,8 +163,6 @@ func registry() []PropSpec {
 				{Pkg: pkgCC, Func: "H10b_q", Unwind: 8, Note: "<=2 sendRequest (names from {a,b}, duplicates possible; each write ok / closed pipe / other error) issued before, during (at every read) or after consumeOutput; client output = <=2 responses with names from {a,b,unknown} then clean EOF or an error"},
 			},
 			Thorough: []HarnessSpec{
-				{Pkg: pkgCC, Func: "H10a_q", Unwind: 8, Note: "as quick"},
-				{Pkg: pkgCC, Func: "H10b_t", Unwind: 10, JobSecs: 1800, ExecSecs: 1500, Note: "<=3 sends, <=2 responses"},
 			},
 			Stubs: []string{"internal.ReadDelimitedMessage / WriteDelimitedMessage replaced by stubs (their own behaviour is C09): the read stub yields a symbolic response name or the terminal error and is a scheduling point at which pending sends run", "process = fake controller", "goroutines run at spawn; mutexes sequential; time.After fires only when nothing else is ready"},
 			Out:   []string{"true concurrency of senders and reader inside one atomic step", "real pipes and OS processes"},
